@@ -727,6 +727,10 @@ func (w *codecWorld) runLinkKey(h int, r *rand.Rand) {
 	}
 	io1 := w.io0.ApplyOptions(&cbor.Options{LinkKey: k1})
 	io2 := w.io0.ApplyOptions(&cbor.Options{LinkKey: k2})
+	if r.Intn(2) == 0 {
+		// the second codec derived from the first one: the first must keep its own key
+		io2 = io1.ApplyOptions(&cbor.Options{LinkKey: k2})
+	}
 	fmt.Fprintf(w.out, "K %s %s\n", codecHx0(k1b), codecHx0(k2b))
 	ident := w.idents[r.Intn(len(w.idents))]
 	var prev []cid.Cid
